@@ -61,6 +61,9 @@ func (l *ledger) Subscribe(_ context.Context, id channel.ID) (channel.Adjudicato
 }
 
 func (l *ledger) Register(_ context.Context, req channel.AdjudicatorReq, subStates []channel.SignedState) error {
+	// an on-chain registration takes time: whatever the watcher's locking lets
+	// run meanwhile is explored
+	rt.SchedPoint("register")
 	l.mu.Lock()
 	defer l.mu.Unlock()
 	c := regCall{parentID: req.Tx.ID, parentVersion: req.Tx.Version}
@@ -322,4 +325,68 @@ func VerifC05History() {
 		rt.Quiesce()
 	}
 	rt.Reach("c05.history")
+}
+
+// VerifC05TwoEvents: the ledger channel and its sub-channel both have newer
+// transactions; registered events for both arrive back to back, so that their
+// handlers run concurrently (the Register stub is a schedule point). The
+// handlers of one channel family are serialised, so the outcome must be that of
+// processing the two events one after the other in one of the two orders.
+func VerifC05TwoEvents() {
+	wd := newWorld()
+	wd.startParent()
+	rt.Quiesce()
+	wd.startSub()
+	rt.Quiesce()
+	wd.publish(pIdx)
+	rt.Quiesce()
+	wd.publish(sIdx)
+	rt.Quiesce()
+	p, s := wd.c[pIdx], wd.c[sIdx]
+	e := [2]uint64{version(), version()}
+	before := wd.l.numCalls()
+	first := rt.Choice(2)
+	for k := 0; k < 2; k++ {
+		i := (first + k) % 2
+		c := wd.c[i]
+		ev := channel.NewRegisteredEvent(c.id, &channel.ElapsedTimeout{}, e[i], wd.state(i, e[i], false), nil)
+		wd.l.mu.Lock()
+		sb := wd.l.subs[c.id]
+		wd.l.mu.Unlock()
+		sb.ch <- ev
+	}
+	rt.Quiesce()
+	wd.drain(pIdx)
+	wd.drain(sIdx)
+	calls := wd.l.numCalls() - before
+	expect := func(a, b int) int {
+		own := [2]uint64{p.own, s.own}
+		n := 0
+		for _, i := range []int{a, b} {
+			if e[i] < wd.c[i].newest && e[i] >= own[i] {
+				n++
+				own[pIdx] = p.newest
+				if wd.locked {
+					own[sIdx] = s.newest
+				}
+			}
+		}
+		return n
+	}
+	rt.Reach("c05.two-events")
+	rt.Assert("c05.two.refuted-as-if-sequential", calls == expect(pIdx, sIdx) || calls == expect(sIdx, pIdx))
+	wd.l.mu.Lock()
+	for _, call := range wd.l.calls[before:] {
+		rt.Assert("c05.two.newest-parent", call.parentID == p.id && call.parentVersion == p.newest)
+	}
+	wd.l.mu.Unlock()
+	for i := 0; i < 2; i++ {
+		c := wd.c[i]
+		for k := 1; k < len(c.relayed); k++ {
+			rt.Assert("c05.two.relay-increasing", c.relayed[k-1] < c.relayed[k])
+		}
+	}
+	if calls == 2 {
+		rt.Reach("c05.two-events.two-refutations")
+	}
 }
